@@ -41,17 +41,19 @@ CHECKS["C03"] = dict(
     tech="Coq proof (arithmetic lemmas + finite sweep) + differential correspondence at both range limits",
     ref="3 C03")
 CHECKS["C04"] = dict(
-    text="Theorems C04_window_full / C04_window_reduced (Props/C04.v): for every mnemonic and every operand list of a finite, explicitly "
-         "defined window (all registers, all index forms, values around every field boundary and at the 16/22/32/64-bit limits, 0-3 "
-         "operands; 44k lists per mnemonic) the model either returns an error value or emits exactly the ISA encoding of the statement "
-         "as written (kernel-checked exhaustive sweep) - a BOUNDED theorem, the bound is in the statement; C04_guards: the value guards "
-         "reject everything outside their field for all of Z; C03_unreachable covers relative operands for all of Z. Beyond the window "
-         "the claim rests on correspondence + oracle sweep over wider windows (170k cases incl. 2^63 extremes).",
-    note=BASE + " Honest limit: universality over all operand values is proved for the guards and relative operands only, not yet "
-         "composed through every mnemonic (DESIGN.md section 3 C04).",
-    tech="Coq proof over a finite kernel-swept window + unbounded guard lemmas + differential correspondence/oracle sweep",
+    text="Theorems (Props/C04.v): C04_values_in_range - UNBOUNDED in the operand values: for every operation, operand list, program "
+         "counter and all values in Z, whatever the encoder accepts has every value operand inside the range of its field kind in the "
+         "ISA table (8-bit immediates, unsigned bit/port/constant fields, relative targets, jmp/call and lds/sts addresses incl. the "
+         "reduced-core 0x40..0xBF), C04_displacement_in_range (ld/st/ldd/std: Y or Z, 0..63), C04_kinds_from_table (the kind table is "
+         "checked against every row of Spec/Isa.v); C04_window_full / C04_window_reduced - for every mnemonic and every operand list of "
+         "a finite, explicitly defined window (ALL registers in every position, all index forms, all operand kinds and counts 0-3, values "
+         "around every field boundary; 44k lists per mnemonic) the model returns an error value or exactly the ISA encoding of the "
+         "statement as written (kernel-checked exhaustive sweep); C04_guards. Registers, kinds and counts are finite and swept "
+         "exhaustively; values are covered for all of Z; that accepted in-range operands get the table's encoding is C01.",
+    note=BASE + " The window theorem is bounded (the bound is in its statement); the range theorem is not.",
+    tech="Coq proof (goal-directed case analysis over all operations for the value ranges; finite kernel-swept window for registers, "
+         "kinds and counts) + differential correspondence/oracle sweep",
     ref="3 C04")
-
 CHECKS["C05"] = dict(
     text="Theorem C05_eval (Props/C05.v): for every symbol table and every expression tree (unbounded, induction) the evaluator model "
          "returns exactly the value the documented operator table defines (Spec/ExprSpec.v: i64 arithmetic, 0/1 comparisons, ~ = "
@@ -199,9 +201,11 @@ CHECKS["C09"] = dict(
          "reference beyond the arguments stays and is a syntax error), for every body line made of '@'-free text and @0..@9; "
          "C09_argument_text / C09_argument_alone / C09_argument_no_at - the text an expression argument is turned into (Display: every "
          "compound operand parenthesised) has no '@' and, in any non-gluing context, is read back by the grammar as exactly the expression "
-         "the caller wrote, for all operators, levels and nesting depths (instance of the generic climbing-parser round trip); C09_case "
-         "(calls are matched in lower case) and C09_undefined (error naming the call's line). PARTIAL: register and index-form arguments, "
-         "the splice of expanded segments into the output (pass 0) and nested calls rest on the correspondence and on the oracle search "
+         "the caller wrote, for all operators, levels and nesting depths (instance of the generic climbing-parser round trip); "
+         "C09_register_operand / C09_index_operands / C09_expression_operand / C09_compound_operand - as an operand of an instruction "
+         "line, registers r0..r31, the index forms X, X+, -X, X+expr and expressions read back as the operand the caller wrote; C09_case "
+         "(calls are matched in lower case) and C09_undefined (error naming the call's line). PARTIAL: the splice of expanded segments "
+         "into the output (pass 0), bodies that switch segments and nested calls rest on the correspondence and on the oracle search "
          "(real build of the macro program = real build of the hand-expanded program)." + PROG,
     note=BASE + " Search: macros with up to ten parameters, bodies with instructions, data, conditionals on parameters, nested calls and "
          "segment switches; arguments = registers, index forms, random expression trees; calls before the definition and in mixed case.",
